@@ -62,10 +62,10 @@ def dag_node_base(rng, wt=None, max_edges=10, exact=True):
 
 
 # --------------------------------------------------------------------------------------------- cyclic
-def cyc_edge_base(rng, wt="int", max_edges=10, exact=True, maxw=2, maxlen=7, shape=None):
+def cyc_edge_base(rng, wt="int", max_edges=10, exact=True, maxw=2, maxlen=7, shape=None, npaths=None):
     for _ in range(30):
         nodes, edges = (shape(rng) if shape else gen.cyc_any(rng, max_edges))
-        flow, planted = gen.plant_walks(rng, nodes, edges, nwalks=rng.randint(1, 3), maxw=maxw, maxlen=maxlen)
+        flow, planted = gen.plant_walks(rng, nodes, edges, nwalks=(npaths if npaths is not None else rng.randint(1, 3)), maxw=maxw, maxlen=maxlen)
         if flow is None:
             continue
         if max(flow.values()) > 6:
